@@ -491,6 +491,42 @@ func (mi *ModInfo) callEffects(f *ssa.Function, ci ssa.CallInstruction, add func
 }
 
 // implMethods: repo methods that an interface call may dispatch to.
+// implMethodsRaw: like implMethods, but a promoted method is represented by its synthetic wrapper
+// (which loads the embedded field and calls the declared method): the wrapper is what an invoke reaches.
+func (mi *ModInfo) implMethodsRaw(it types.Type, m *types.Func) []*ssa.Function {
+	var res []*ssa.Function
+	for _, t := range mi.w.implementers(it) {
+		ms := mi.w.Prog.MethodSets.MethodSet(t)
+		sel := ms.Lookup(m.Pkg(), m.Name())
+		if sel == nil {
+			continue
+		}
+		fn := mi.w.Prog.MethodValue(sel)
+		if fn == nil || fn.Blocks == nil {
+			continue
+		}
+		if fn.Synthetic == "" && !(fn.Pkg != nil && mi.w.InRepo[fn.Pkg]) {
+			continue
+		}
+		if fn.Synthetic != "" {
+			// only wrappers of repository types
+			if n, ok := derefNamed(t); !ok || n.Obj().Pkg() == nil || !strings.HasPrefix(n.Obj().Pkg().Path(), repoModule) {
+				continue
+			}
+		}
+		res = append(res, fn)
+	}
+	return res
+}
+
+func derefNamed(t types.Type) (*types.Named, bool) {
+	if p, ok := t.(*types.Pointer); ok {
+		t = p.Elem()
+	}
+	n, ok := t.(*types.Named)
+	return n, ok
+}
+
 func (mi *ModInfo) implMethods(it types.Type, m *types.Func) []*ssa.Function {
 	var res []*ssa.Function
 	for _, t := range mi.w.implementers(it) {
